@@ -197,6 +197,10 @@ type limResult struct {
 
 func execLimiter(t *testing.T, plan any, out *Outcome) {
 	p := plan.(*LimPlan)
+	// (a pool of its own per run: see harness/rueidisprob/scen_prob_test.go, startProb)
+	rateBuffersPool = util.NewPool(func(capacity int) *rateBuffersContainer {
+		return &rateBuffersContainer{keyBuf: make([]byte, 0, capacity)}
+	})
 	e := newSimEnv(out.Seed, p.Sim, out)
 	s := e.sim
 	if len(p.TickMs) > 0 {
